@@ -996,7 +996,10 @@ class Cache:
             if rows:
                 ((rowid, old_expire_time),) = rows
 
-                if old_expire_time is None or old_expire_time > now:
+                # Compare with the clock as it is now that the lock is held:
+                # the item may have expired while waiting for it.
+
+                if old_expire_time is None or old_expire_time > time.time():
                     sql(
                         'UPDATE Cache SET expire_time = ? WHERE rowid = ?',
                         (expire_time, rowid),
@@ -1046,7 +1049,9 @@ class Cache:
             if rows:
                 ((rowid, old_filename, old_expire_time),) = rows
 
-                if old_expire_time is None or old_expire_time > now:
+                # As in `touch`: the clock once the lock is held.
+
+                if old_expire_time is None or old_expire_time > time.time():
                     cleanup(filename)
                     return False
 
@@ -1108,7 +1113,9 @@ class Cache:
 
             ((rowid, expire_time, filename, value),) = rows
 
-            if expire_time is not None and expire_time <= now:
+            # As in `touch`: the clock once the lock is held.
+
+            if expire_time is not None and expire_time <= time.time():
                 if default is None:
                     raise KeyError(key)
 
